@@ -5,6 +5,7 @@
 import JV.Drv.MergePatch
 import JV.Drv.Pointer
 import JV.Drv.Patch
+import JV.Drv.Number
 open JV Drv
 
 def dispatch (line : String) : String :=
@@ -12,6 +13,8 @@ def dispatch (line : String) : String :=
   | "mp" :: rest => mergePatchLine rest
   | "ptr" :: rest => pointerLine rest
   | "patch" :: rest => patchLine rest
+  | "num" :: rest => numberLine rest
+  | "big" :: rest => bigLine rest
   | [] => ""
   | _ => "bad-op"
 
